@@ -250,6 +250,10 @@ class Fn:
         self.oracles = []
 
     # ------------------------------------------------------------------ result shapes
+    def env_args(self):
+        """the environment parameters of the signature, as arguments"""
+        return "".join(m + " " for m in re.findall(r"\((\w+) :", self.env_sig))
+
     def result(self, val, env=None):
         """what a `return val` (or falling off the end) produces"""
         if self.ret_override is not None:
@@ -673,7 +677,7 @@ class Fn:
             pre, a = self.args([x for x in argn if x.get("kind") != "CXXDefaultArgExpr"], env)
             if len(a) != 1 or a[0][1] not in ("bytes", "json"):
                 raise Untranslatable("write() with these arguments")
-            wd = "(fun s b => %s %ss b)" % (info["name"], "env app " if info["env"] else "")
+            wd = "(fun s b => %s %ss b)" % (info["name"], self.env_args() if info["env"] else "")
             self.uses_env = self.uses_env or info["env"]
             return pre + ["let s := Cxx.qioWrite %s s %s" % (wd, a[0][0])], "()", "void"
         if obj in ("this", "q", "d"):
@@ -714,7 +718,9 @@ class Fn:
                 if lenname:
                     ai += 1
             self.uses_env = self.uses_env or info["env"]
-            call = "%s %ss%s" % (info["name"], "env app " if info["env"] else "", "".join(" " + v for v in vals))
+            if info.get("cfg"):
+                self.needs_cfg = True
+            call = "%s %s%ss%s" % (info["name"], self.env_args() if info["env"] else "", "c " if info.get("cfg") else "", "".join(" " + v for v in vals))
             if info["const"]:
                 return pre, "(%s)" % call, info["ret"]
             via = obj == "q" and self.cls == "SocketPrivate"
@@ -1062,12 +1068,14 @@ class Fn:
             nm = callee.get("name")
             objn = kids(callee)[0] if callee.get("kind") == "MemberExpr" else None
             real = [x for x in kids(s0)[1:] if x.get("kind") != "CXXDefaultArgExpr"]
-            if objn is not None and nm in ("append", "push_back", "remove", "truncate", "clear", "insert", "replace", "removeFirst", "pop_front") and self.obj_path(objn) not in ("this", "q", "d", "socket"):
+            if objn is not None and nm in ("append", "prepend", "push_back", "remove", "truncate", "clear", "insert", "replace", "removeFirst", "pop_front") and self.obj_path(objn) not in ("this", "q", "d", "socket"):
                 pl, cl, tl = self.ex(objn, env)
                 pre, a = self.args(real, env)
                 if tl == "bytes":
                     if nm == "append" and len(a) == 1 and a[0][1] == "bytes":
                         new = "(%s ++ %s)" % (cl, a[0][0])
+                    elif nm == "prepend" and len(a) == 1 and a[0][1] == "bytes":
+                        new = "(%s ++ %s)" % (a[0][0], cl)
                     elif nm == "remove" and len(a) == 2 and a[0][1] == a[1][1] == "int":
                         new = "(Cxx.removeAt %s %s %s)" % (cl, a[0][0], a[1][0])
                     elif nm == "truncate" and len(a) == 1 and a[0][1] == "int":
@@ -1635,6 +1643,7 @@ class ProxyFn(Fn):
 
     def translate(self):
         text = Fn.translate(self)
+        self.info["cfg"] = self.needs_cfg
         if self.needs_cfg:
             text = text.replace("(s : Proxy.St)", "(c : Proxy.Cfg) (s : Proxy.St)", 1)
         return text
@@ -1822,7 +1831,7 @@ class FsFn(Fn):
 
     def translate(self):
         text = Fn.translate(self)
-        if self.free:
+        if self.free and self.key.endswith("::absolutePath"):
             # a pure function still reads the environment
             text = text.replace("def %s " % self.info["name"], "def %s (fe : FsHandler.FsEnv) " % self.info["name"], 1)
             self.info["fe"] = True
